@@ -1123,6 +1123,59 @@ fn corrupt(sink: &mut Sink, o: &Opts) {
                 }
             }
         }
+        // string section, systematic part: every string start of small files gets an over-long / non-terminated
+        // LEB128 length prefix (runs of continuation bytes up to and beyond the 10 a u64 can take, with several
+        // terminal bytes), and the whole section is filled with continuation bytes
+        if ns > 0 && ns <= 400 && str_at + ns <= good.len() {
+            let mut starts = vec![];
+            let mut p = 0usize;
+            while p < ns {
+                starts.push(p);
+                // decode the (writer-produced, hence well-formed) prefix to find the next string
+                let (mut len, mut shift, mut q) = (0usize, 0u32, p);
+                while q < ns {
+                    let byte = good[str_at + q];
+                    len |= ((byte & 0x7f) as usize) << shift;
+                    shift += 7;
+                    q += 1;
+                    if byte & 0x80 == 0 || shift > 28 {
+                        break;
+                    }
+                }
+                p = q + len;
+            }
+            let fixed: Vec<(String, String, usize, String)> = queries.iter().take(5).cloned().collect();
+            let mut edits: Vec<(String, Vec<u8>)> = vec![];
+            for &st in starts.iter().take(12) {
+                for run in [1usize, 2, 4, 8, 9, 10, 11, 16, 40] {
+                    for (cont, term) in [(0x80u8, 0x00u8), (0x80, 0x01), (0xff, 0x7f), (0xff, 0x00)] {
+                        if st + run + 1 > ns {
+                            continue;
+                        }
+                        let mut b = good.clone();
+                        for x in 0..run {
+                            b[str_at + st + x] = cont;
+                        }
+                        b[str_at + st + run] = term;
+                        edits.push((format!("leb@{st}:{run}x{cont:#x}+{term:#x}"), b));
+                    }
+                }
+            }
+            for fill in [0x80u8, 0xff] {
+                let mut b = good.clone();
+                for x in 0..ns {
+                    b[str_at + x] = fill;
+                }
+                edits.push((format!("strings-filled-{fill:#x}"), b));
+            }
+            for (what, b) in edits {
+                let buf = crate::handles::Aligned::new(&b);
+                let calls = probe_cache(buf.bytes(), &fixed);
+                let failing: Vec<Value> = calls.iter().filter(|c| c["status"] != "ok" || c["provenance_ok"] != true).cloned().collect();
+                let shown = if failing.is_empty() { calls.into_iter().take(1).collect() } else { failing };
+                sink.emit(json!({"t": "corrupt", "what": what, "parse": parse_outcome(&b), "calls": shown, "len": b.len()}));
+            }
+        }
         // torn buffers: every prefix of small files (parse must return; whatever it accepts must answer)
         if good.len() <= 500 && k % 2 == 0 {
             for cut in 0..good.len() {
@@ -1336,6 +1389,34 @@ fn uuids(sink: &mut Sink, o: &Opts) {
             .unwrap_or_default();
             sink.emit(json!({"bytes": enc::bytes(&bytes[a..b]), "uuid": enc::bytes(&before),
                              "again": [enc::bytes(&after), enc::bytes(&after_clone)]}));
+        }
+    }
+    // histories: ONE read buffer refilled in place with different contents of equal length (and a buffer that is
+    // freed and allocated again, which the allocator hands back at the same address): the identifier follows
+    // the bytes, not the address and length of the buffer that holds them
+    let mut groups: Vec<Vec<Vec<u8>>> = vec![
+        (0..24u8).map(|b| vec![b * 7]).collect(),
+        vec![b"a -> b:\n".to_vec(), b"A -> B:\n".to_vec(), b"a -> b:\r".to_vec(), b"a -> b:\n".to_vec()],
+    ];
+    for len in [64usize, 300, 1000] {
+        groups.push((0..4).map(|_| (0..len).map(|_| rng.below(256) as u8).collect()).collect());
+    }
+    for group in groups {
+        let len = group[0].len();
+        let mut buf = vec![0u8; len];
+        for content in &group {
+            buf.copy_from_slice(content);
+            // same thread, same buffer (guarded() runs its closure on the calling thread)
+            let bref = &buf;
+            let id = guarded(move || proguard::ProguardMapping::new(bref).uuid().as_bytes().to_vec()).unwrap_or_default();
+            let sec = guarded(move || proguard::ProguardMapping::new(bref).section(0..len).uuid().as_bytes().to_vec()).unwrap_or_default();
+            sink.emit(json!({"bytes": enc::bytes(content), "uuid": enc::bytes(&id), "again": [enc::bytes(&sec)], "history": "buffer refilled in place"}));
+        }
+        // nothing else is asked in between: the only thing that changes from call to call is the content
+        for content in &group {
+            let v = content.clone();
+            let id = guarded(move || proguard::ProguardMapping::new(&v).uuid().as_bytes().to_vec()).unwrap_or_default();
+            sink.emit(json!({"bytes": enc::bytes(content), "uuid": enc::bytes(&id), "again": [], "history": "buffer freed and allocated again"}));
         }
     }
     let _ = std::fs::remove_dir_all(&dir);
@@ -1604,7 +1685,17 @@ fn threads_text(sink: &mut Sink, o: &Opts) {
         }
         for _ in 0..4 {
             work.push(json!({"t": "text", "text": enc::s(&gen::trace_text(&mut rng, &uni))}));
-            work.push(json!({"t": "sig", "sig": enc::s(&gen::descriptor(&mut rng, &uni))}));
+            let d = gen::descriptor(&mut rng, &uni);
+            // a worker thread serves a STREAM of queries: malformed neighbours of the descriptor (return type or a
+            // parameter left unterminated, nothing after the parameter list, an empty class name) come right before
+            // the well-formed one, whose answer must not depend on what the thread was asked before
+            let cls = if uni.classes.is_empty() { "q/R".to_string() } else { rng.pick_ref(&uni.classes).replace('.', "/") };
+            for bad in [format!("(I)L{cls}"), format!("()[[L{cls}"), format!("(L{cls}"), format!("(L{cls};"), "(L;)V".to_string(),
+                        format!("(L{cls};)"), d.trim_end_matches(';').to_string()] {
+                work.push(json!({"t": "sig", "sig": enc::s(&bad)}));
+                work.push(json!({"t": "sig", "sig": enc::s(&format!("(L{cls};[L{cls};)L{cls};"))}));
+            }
+            work.push(json!({"t": "sig", "sig": enc::s(&d)}));
         }
         if sid < 2 {
             // descriptors naming hundreds of distinct classes (some of them mapped): whatever the library
